@@ -191,6 +191,36 @@ impl GenParams {
                 p_keep: 0.7,
                 ..b
             },
+            "selfcons" => GenParams {
+                // solvables that constrain / require their own package
+                pkgs: (2, 4),
+                cands: (2, 3),
+                p_self: 0.3,
+                p_cons: 0.5,
+                hint: HintGen::Random,
+                ..b
+            },
+            "softlone" => GenParams {
+                // soft requirements on packages that nothing else mentions
+                pkgs: (3, 6),
+                reqs: (0, 1),
+                root_reqs: (1, 1),
+                soft: (1, 3),
+                p_excl: 0.2,
+                p_lock: 0.15,
+                p_unknown: 0.1,
+                p_cons: 0.4,
+                ..b
+            },
+            "hintexcl" => GenParams {
+                hint: HintGen::Random,
+                p_excl: 0.3,
+                p_lock: 0.25,
+                p_root_cons: 0.6,
+                p_cons: 0.4,
+                soft: (0, 2),
+                ..b
+            },
             "small" => GenParams {
                 pkgs: (2, 4),
                 cands: (1, 3),
